@@ -13,6 +13,7 @@ import (
 	"math"
 	"os"
 	"path/filepath"
+	"reflect"
 	"sort"
 	"strconv"
 	"strings"
@@ -30,10 +31,12 @@ import (
 
 // Item is one yielded (record, error) pair in canonical form.
 type Item struct {
-	Rec   string // canonical representation of the record at the time it was yielded ("" for an error item)
-	Err   error
-	Raw   any           // the record itself
-	canon func() string // recomputes the canonical representation from Raw
+	Rec string // canonical representation of the record at the time it was yielded ("" for an error item)
+	Err error
+	Raw any // the record itself
+	// WithErr: for an error item that also carries a record (non-nil), its canonical form
+	WithErr string
+	canon   func() string // recomputes the canonical representation from Raw
 }
 
 func (it Item) String() string {
@@ -272,7 +275,21 @@ func canonSamH(sh sam.SAMOrHeader) string {
 
 func mkItem(canon func() string, err error, raw any) Item {
 	if err != nil {
-		return Item{Err: err}
+		it := Item{Err: err}
+		carries := false
+		switch v := raw.(type) {
+		case sam.SAMOrHeader:
+			carries = v.H != nil || v.S != nil
+		default:
+			rv := reflect.ValueOf(raw)
+			carries = rv.IsValid() && rv.Kind() == reflect.Pointer && !rv.IsNil()
+		}
+		if carries {
+			if p := catch(func() { it.WithErr = canon() }); p != nil {
+				it.WithErr = fmt.Sprintf("<record whose rendering panics: %v>", p)
+			}
+		}
+		return it
 	}
 	return Item{Rec: canon(), Raw: raw, canon: canon}
 }
